@@ -807,6 +807,12 @@ def gen_tables(tier):
                 for leaves in (itertools.product(LEAFCELLS, repeat=n) if leaf_wild else [None]):
                     rows = [list(kt) + ([leaves[i]] if leaf_wild else []) for i, kt in enumerate(kts)]
                     yield {'pattern': pattern, 'rows': rows}
+        # cells that are SPELT like a wildcard of the pattern ('%b' in column a ...): they are data
+        if len(names) >= 2:
+            for shift in range(1, len(names)):
+                row = ['%' + names[(i + shift) % len(names)] for i in range(len(names))]
+                yield {'pattern': pattern, 'rows': [row]}
+                yield {'pattern': pattern, 'rows': [row, ['a'] * nkeys + ([1] if leaf_wild else [])]}
 
 
 def _row_items(segs, names, row):
